@@ -14,6 +14,7 @@ Proof.
     (eexists; split; [simpl; rewrite ?E; reflexivity|]); simpl; rewrite ?E; simpl;
     try reflexivity;
     try (destruct Hwf as [Hw F]; rewrite ?F; split; [try reflexivity; apply wrap8_id; lia | reflexivity]);
+    try (destruct Hwf as [_ F]; rewrite F; split; reflexivity);
     try (rewrite Hwf; split; reflexivity);
     try (split; reflexivity).
 Qed.
